@@ -24,6 +24,9 @@ enum Exp {
     FragLast(DistMsg),
     /// last-arriving fragment of a message laid out for the pinned reassembly order (see `asis_fragments`)
     FragAsIsLast(DistMsg),
+    /// a message that depends on what the preceding as-is fragment sequence left in the atom cache: judged only when that
+    /// sequence was delivered
+    MsgAfterAsIs(DistMsg),
 }
 
 #[derive(Clone, Debug)]
@@ -169,6 +172,34 @@ fn alphabet(dist: bool) -> Vec<Item> {
                 v.push(Item { name: "kfragperm_asis_reuse_continuation_first", frames: vec![part(0), part(1), last(2, &m_plain), part(1), part(0), last(2, &m_plain)] });
                 v.push(Item { name: "kfragperm_asis_reuse_header_last", frames: vec![part(0), part(1), last(2, &m_plain), part(2), part(1), last(0, &m_plain)] });
             }
+            // as-is layout of a message whose header announces cache entries (and one that overwrites a slot), followed by an
+            // unfragmented message that refers to those slots: the fragmented header's writes belong to the connection's cache
+            {
+                let an = ["peer@127.0.0.1", "me@127.0.0.1", "fragcached"];
+                let c = RefVal::Tuple(vec![RefVal::int(22), peer_pid(3), my_pid(1)]);
+                let p = RefVal::Tuple(vec![RefVal::atom("fragcached"), RefVal::atom("peer@127.0.0.1"), RefVal::binary(&[5u8; 40])]);
+                let whole_c = hdr_msg(&c, Some(&p), &an, true);
+                let table: Vec<String> = an.iter().map(|s| s.to_string()).collect();
+                for (iname, nfr) in [("kfragperm_asis_announces_x1_then_old_refs", 1usize), ("kfragperm_asis_announces_x3_then_old_refs", 3)] {
+                    let mut frames: Vec<(Vec<u8>, Exp)> = vec![];
+                    let bounds: Vec<usize> = (0..=nfr).map(|i| i * whole_c.len() / nfr).collect();
+                    // fragment id k carries chunk k (ascending ids concatenate to the message); the header fragment has id nfr
+                    for id in (1..=nfr).rev() {
+                        let chunk = &whole_c[bounds[id - 1]..bounds[id]];
+                        let mut f = if id == nfr { let mut h = vec![131u8, 69]; h.extend_from_slice(&77u64.to_be_bytes()); h.extend_from_slice(&(nfr as u64).to_be_bytes()); h.push(0); h } else { let mut h = vec![131u8, 70]; h.extend_from_slice(&77u64.to_be_bytes()); h.extend_from_slice(&(id as u64).to_be_bytes()); h };
+                        f.extend_from_slice(chunk);
+                        frames.push((frame(&f, 4), if id == 1 { Exp::FragAsIsLast(DistMsg { control: c.clone(), payload: Some(p.clone()) }) } else { Exp::FragPart }));
+                    }
+                    let old: Vec<HdrRef> = (0..3).map(|i| HdrRef { segment: 0, index: i as u8, new_text: None }).collect();
+                    let c2 = RefVal::Tuple(vec![RefVal::int(2), RefVal::atom(""), my_pid(1)]);
+                    let p2 = RefVal::Tuple(vec![RefVal::atom("me@127.0.0.1"), RefVal::atom("fragcached"), RefVal::atom("peer@127.0.0.1")]);
+                    let mut f2 = write_dist_header(&old);
+                    w_term_cached(&mut f2, &c2, &table);
+                    w_term_cached(&mut f2, &p2, &table);
+                    frames.push((frame(&f2, 4), Exp::MsgAfterAsIs(DistMsg { control: c2, payload: Some(p2) })));
+                    v.push(Item { name: iname, frames });
+                }
+            }
             for (pname, aname, order) in perms {
                 let pf: Vec<(Vec<u8>, Exp)> = order.iter().enumerate().map(|(k, &i)| (frame(&proto[i], 4), if k == 2 { Exp::FragLast(dm.clone()) } else { Exp::FragPart })).collect();
                 v.push(Item { name: pname, frames: pf });
@@ -263,6 +294,7 @@ fn execute(case: &Case, alpha: &[Item], ctx: &WorkerCtx) -> ExecResult {
         // compare with the expectation
         let mut gi = 0usize;
         let mut known: Vec<&'static str> = vec![];
+        let mut asis_delivered = false;
         let mut problem: Option<String> = None;
         for (_, exp) in &wire {
             match exp {
@@ -281,9 +313,17 @@ fn execute(case: &Case, alpha: &[Item], ctx: &WorkerCtx) -> ExecResult {
                         None => { problem = Some("no result for a message".into()); break; }
                     }
                 }
-                Exp::FragAsIsLast(m) => {
+                Exp::MsgAfterAsIs(m) => {
                     match got.get(gi) {
                         Some(Ok((c, p))) if exact_eq(c, &m.control) && match (p, &m.payload) { (Some(a), Some(b)) => exact_eq(a, b), (None, None) => true, _ => false } => gi += 1,
+                        other if asis_delivered => { problem = Some(format!("expected message {} (whose cache references were announced in a fragmented message) at result {}, got {:?}", m.control.short(), gi, other.map(|r| match r { Ok((c, p)) => format!("{} / {:?}", c.short(), p.as_ref().map(|p| p.short())), Err(e) => e.clone() }))); break; }
+                        Some(_) => { gi += 1; }
+                        None => {}
+                    }
+                }
+                Exp::FragAsIsLast(m) => {
+                    match got.get(gi) {
+                        Some(Ok((c, p))) if exact_eq(c, &m.control) && match (p, &m.payload) { (Some(a), Some(b)) => exact_eq(a, b), (None, None) => true, _ => false } => { gi += 1; asis_delivered = true; }
                         Some(_) => { known.push("ASIS-LAYOUT-NOT-DELIVERED"); gi += 1; }
                         None => { known.push("ASIS-LAYOUT-NOT-DELIVERED"); }
                     }
@@ -420,6 +460,10 @@ pub fn run_c02(rep: &Report) -> Value { run_filtered(rep, Some("MALFORMED")) }
 /// C09 at the connection: only the fragment arrival-order cases (receive_message; the read-half entry point is pass-through only).
 pub fn run_c09(rep: &Report) -> Value { run_filtered(rep, Some("kfrag")) }
 
+/// The frames that exercise the receiving atom cache (header messages in every slot layout, announcements followed by old
+/// references, also when the announcing message arrived in fragments), as an engine of C14.
+pub fn run_c14(rep: &Report) -> Value { run_filtered(rep, Some("CACHE")) }
+
 fn run_filtered(rep: &Report, only: Option<&str>) -> Value {
     let thorough = rep.thorough();
     let mut total = Stats { executions: 0, transitions: 0, distinct_outcomes: 0, max_points: 0, bound_completed: 0, exhaustive: true, unstable: 0, diverged: 0, samples: vec![], outcomes: Default::default() };
@@ -445,6 +489,7 @@ fn run_filtered(rep: &Report, only: Option<&str>) -> Value {
             for &a in &red { for &b in &red { for &c in &red { seqs.push(vec![a, b, c]); } } }
         }
         if malformed_only { seqs.retain(|s| s.len() == 1 && alpha[s[0]].frames.iter().all(|(_, e)| matches!(e, Exp::OneErr | Exp::Nothing))); }
+        else if only == Some("CACHE") { seqs.retain(|s| s.len() <= 2 && !s.is_empty() && s.iter().all(|&i| alpha[i].name.starts_with("hdr_") || alpha[i].name.starts_with("kfragperm_asis_announces"))); }
         else if let Some(f) = only { seqs.retain(|s| s.len() == 1 && alpha[s[0]].name.starts_with(f)); }
         for s in &seqs {
             cases.push(Case { items: s.clone(), seg: 0, dist, read_half });
@@ -513,6 +558,7 @@ fn run_filtered(rep: &Report, only: Option<&str>) -> Value {
         "configurations": parts,
         "distinct_outcomes": total.distinct_outcomes,
         "unstable_failures_not_reported": total.unstable,
+        "rule_c14": "every sequence of <= 2 frames from the header-message items of C06's alphabet (identity and non-identity slots, an atom-less header, announcements followed by old references, a refused message in between, announcements made by a message that arrived in 1 or 3 fragments) through Connection::receive_message; results compared with the reference receiver",
         "rule": "every sequence of <= 2 (3 thorough; 3 over a reduced alphabet in quick) peer frames from an alphabet of 14-21 frames (8 pass-through control kinds with payloads up to 2 KiB (+ the remaining 22 operations of the protocol table as single-frame cases), tick, 5 malformed frames; with distribution headers negotiated also header messages in identity and non-identity cache slots, an atom-less header, messages cut into 2 and 3 fragments by the reference fragmenter, malformed fragment frames), sent whole, byte by byte and with the first frame split at every offset, followed by a final valid message; results of the real receive loop compared with the reference receiver; both receive entry points; plus 12 executions in which 300 copies of one rejected frame (over-nested term, frame ending at a tag or right after ATOM_CACHE_REF, with and without a distribution header) are followed by a valid message with a 200-deep payload",
     })
 }
